@@ -215,7 +215,7 @@ func runCheck(prop, tier, repo, verif string, keep bool, only string, verbose bo
 		}
 	}
 	for _, k := range loadKnown(verif) {
-		if k.Property == prop && k.Status == "known" {
+		if k.Status == "known" {
 			for _, o := range obs {
 				if o.Name == k.Obligation {
 					o.Expected = true
